@@ -426,6 +426,13 @@ func (w *Worker) shiftAmount(y *Term, wx int) *Term {
 func (w *Worker) binop(op token.Token, a, b Val, ta, tb types.Type) Val {
 	ts := w.ts
 	if wd, signed, ok := intType(ta); ok {
+		if pa, isPtr := a.(Ptr); isPtr {
+			// uintptr arithmetic on a pointer: only x^0, x+0, x|0 (runtime noescape idiom)
+			if y, ok := b.(*Term); ok && y.IsConst() && y.C == 0 && (op == token.XOR || op == token.ADD || op == token.OR) {
+				return pa
+			}
+			panic(engineError{"pointer arithmetic on uintptr in " + w.curFn()})
+		}
 		x := a.(*Term)
 		y := b.(*Term)
 		switch op {
@@ -628,8 +635,8 @@ func (w *Worker) convert(v Val, from, to types.Type) Val {
 			}
 			return ts.Zext(x, wt)
 		}
-		if p, ok := v.(Ptr); ok { // uintptr(unsafe.Pointer)
-			return Opaque{fmt.Sprintf("uintptr(%v)", p)}
+		if p, ok := v.(Ptr); ok { // uintptr(unsafe.Pointer): keep the pointer (only noescape-style identities are supported)
+			return p
 		}
 	}
 	fu, tu := from.Underlying(), to.Underlying()
